@@ -159,6 +159,23 @@ def SP(seq):
     return o
 
 
+def SPx(seq):
+    """(object, the sequence it holds): like SP(), but for sequences with crc32 % 6 == 4 the object is a REAL shuffle of the
+    constructed one (get_shuffled_sequence with some positions frozen) — an object built by the library itself, whose
+    parameters must be those of ITS sequence.  Harnesses that use SPx key their Coq case on the returned sequence."""
+    o = SP(seq)
+    if DERIVED and isinstance(seq, str) and len(seq) >= 4:
+        import zlib
+        h = zlib.crc32(seq.encode('utf-8', 'replace'))
+        if h % 6 == 4:
+            import random as _r
+            r = _r.Random(h)
+            frozen = set(r.sample(range(len(seq)), r.randint(0, len(seq) // 2)))
+            c = o.get_shuffled_sequence(frozen=frozen) if frozen else o.get_shuffled_sequence()
+            return c, c.get_sequence()
+    return o, (seq if not isinstance(seq, str) else ''.join(ch for ch in seq.upper() if not ch.isspace()))
+
+
 def prelude(o, seq, seed):
     """3-8 other queries on the object first: every parameter must come out the same on an object with a query history
     (stale memo, aliased array, shared default).  Deterministic in the sequence; errors of the prelude calls are ignored."""
